@@ -159,6 +159,9 @@ pub struct SchedStats {
     /// tracing runs with `Plan.late_logs`: logs emitted by the helper that outlives a callback.
     #[serde(default)]
     pub late_logs: u64,
+    /// real-runner runs that keep no `Source` alive: entities that came to live at the address of a freed one.
+    #[serde(default)]
+    pub reused_addresses: u64,
 }
 
 struct TimerEntry {
